@@ -803,6 +803,44 @@ pub fn run_enumerated(prop: &str, rep: &mut Report, depth: usize, cap: usize) {
     rep.require("enumerated.histories", 1_000);
 }
 
+/// witness of the known C04 finding that the generators avoid: copying or moving a container that is not identifiable itself
+/// (ELEMENTS, AR-PACKAGES ...) to a place where one of its identifiable children meets an element of the same name
+fn c04_container_witness(rep: &mut Report) {
+    for moving in [false, true] {
+        let model = AutosarModel::new();
+        let _ = model.create_file("w.arxml", AutosarVersion::Autosar_00050);
+        let build = || -> Result<(Element, Element), AutosarDataError> {
+            let pkgs = model.root_element().create_sub_element(ElementName::ArPackages)?;
+            let p = pkgs.create_named_sub_element(ElementName::ArPackage, "p")?;
+            let elements = p.create_sub_element(ElementName::Elements)?;
+            elements.create_named_sub_element(ElementName::System, "x")?;
+            let q = pkgs.create_named_sub_element(ElementName::ArPackage, "q")?;
+            q.create_sub_element(ElementName::ArPackages)?.create_named_sub_element(ElementName::ArPackage, "x")?;
+            Ok((elements, q))
+        };
+        let Ok((elements, q)) = build() else {
+            rep.inconclusive("C04 witness: cannot build the model");
+            return;
+        };
+        let r = if moving { q.move_element_here(&elements).map(|_| ()) } else { q.create_copied_sub_element(&elements).map(|_| ()) };
+        rep.count("container_collision_witness.calls", 1);
+        let t = Tree::of_model(&model);
+        let mut seen = Seen::default();
+        let viols = m_index(&model, &t, &[], &mut seen);
+        let op = if moving { "Move" } else { "Copy" };
+        if r.is_ok() {
+            for v in viols.iter().filter(|v| v.rule == "index/duplicate-path").take(1) {
+                rep.violation(
+                    &v.rule,
+                    &format!("C04:index/duplicate-path:container-with-a-colliding-child-name:after={op}"),
+                    &format!("q.{}(ELEMENTS of p) succeeds although /q/x exists already: {}", if moving { "move_element_here" } else { "create_copied_sub_element" }, v.detail),
+                    J::obj().with("engine", J::s("c04-witness")).with("op", J::s(op)),
+                );
+            }
+        }
+    }
+}
+
 pub fn run(prop: &str, rep: &mut Report, tier: &str) {
     setup_monitors();
     let plan = plan(prop, tier);
@@ -847,6 +885,9 @@ pub fn run(prop: &str, rep: &mut Report, tier: &str) {
         }
     });
     rep.require("successful_structural_mutations", 1000);
+    if prop == "C04" {
+        c04_container_witness(rep);
+    }
     if matches!(prop, "C03" | "C04" | "C05" | "C06" | "C10" | "C11" | "C13") {
         // bounded exhaustive part: all histories of 3 calls (thorough: 4, evenly spaced beyond the cap) over the small universe
         if tier == "thorough" {
